@@ -683,7 +683,7 @@ func init() {
 		Rule:   "25 connect-exchange scripts (every prefix of CONNECT[will][AUTH][WILLTOPIC][WILLMSG], repeated CONNECT/AUTH/WILLTOPIC, a refused step: wildcard/QoS 3/empty WILLTOPIC, AUTH with another method, CONNECT with zero keep-alive or an unknown protocol id while an exchange is open) after which the peer is silent; complete scripts face a broker that never answers CONNECT, in a fifth of the runs one that stops reading after 1-13 bytes (the gateway's write of the MQTT CONNECT is blocked half-way); each script with seeded timing, link latency and yield sites; virtual-time deadline = last CONNECT + 5 s + 100 ms poll + 3 ms slack; non-trivial = session in which a CONNECT was consumed and no broker CONNACK arrived",
 		Gen:    genC10, Oracle: oracleC10, Quick: 1000, Thorough: 60000})
 	Register(&Check{ID: "C13", Level: "fault_enumeration",
-		Rule:   "8 session scripts (unconnected, connecting, active idle, active with traffic and pending QoS 1/2 transactions, asleep, asleep with pinger, awake, back from sleep with CONNECT while QoS 0-2 messages wait in the buffer with retry timers of a few ms and a slow gateway) x 7 causes (gateway shutdown, plain DISCONNECT, broker FIN, broker RST, undecodable datagram, illegal packet, connect timeout) at a seeded instant; deadline = cause + 100 ms + 3 ms; DISCONNECT-to-client rule; goroutine census of gateway/transactions/util frames after final shutdown; non-trivial = a termination cause occurred",
+		Rule:   "8 session scripts (unconnected, connecting, active idle, active with traffic and pending QoS 1/2 transactions, asleep, asleep with pinger, awake, back from sleep with CONNECT while QoS 0-2 messages wait in the buffer with retry timers of a few ms and a slow gateway) x 7 causes (gateway shutdown, plain DISCONNECT, broker FIN, broker RST, undecodable datagram, illegal packet, connect timeout) at a seeded instant; deadline = cause + 100 ms + 3 ms; DISCONNECT-to-client rule; in scripts asleep / asleep with pinger QoS 1-2 messages wait in the buffer (paused retry timers) when the cause strikes; goroutine census of gateway/transactions/util frames after final shutdown, and timer census: no timer may be armed by repo code after the gateway has returned and the last session has ended; non-trivial = a termination cause occurred",
 		Gen:    genC13, Oracle: oracleC13, Quick: 1280, Thorough: 128000})
 	Register(&Check{ID: "C14", Level: "fault_enumeration",
 		Rule:   "same script x cause space as C13; an MQTT DISCONNECT on a session's broker stream must be the translation of a consumed plain MQTT-SN DISCONNECT; non-trivial = session ended or an MQTT DISCONNECT was written",
